@@ -40,7 +40,9 @@ func runSvcChild(c *lib.Ctx, sc SvcScenario) {
 	n := atomic.AddInt64(&childSeq, 1)
 	dir := filepath.Join(c.Out, fmt.Sprintf("c16-child-%d-%d-%d", c.Shard, os.Getpid(), n))
 	os.MkdirAll(dir, 0o755)
-	defer os.RemoveAll(dir)
+	if os.Getenv("C16_KEEP_CHILD") == "" {
+		defer os.RemoveAll(dir)
+	}
 	child := sc
 	child.Child = true
 	wb, _ := json.Marshal(child)
@@ -84,7 +86,7 @@ func runSvcChild(c *lib.Ctx, sc SvcScenario) {
 		c.Violation(v.Signature, v.What, v.Witness)
 	}
 	for _, s := range res.Inconclusive {
-		c.Inconclusive(s)
+		inconclusive(c, s)
 	}
 	c.Distinct(sc.Key())
 	c.SampleSome(20, func() any { return sc })
@@ -95,12 +97,12 @@ func runSvcChild(c *lib.Ctx, sc SvcScenario) {
 	}
 	stderr, _ := os.ReadFile(filepath.Join(dir, "stderr.log"))
 	if timedOut {
-		c.Inconclusive(fmt.Sprintf("service scenario %s: child did not finish within %v (last progress: %v)", sc.Key(), childTimeout, progress))
+		inconclusive(c, fmt.Sprintf("service scenario %s: child did not finish within %v (last progress: %v)", sc.Key(), childTimeout, progress))
 		return
 	}
 	first, frames, region := crashClass(string(stderr))
 	if first == "" || frames == "" {
-		c.Inconclusive(fmt.Sprintf("service scenario %s: child ended with %v without a result and without a crash inside the teamserver (stderr tail: %s)", sc.Key(), err, clip(lastN(string(stderr), 400))))
+		inconclusive(c, fmt.Sprintf("service scenario %s: child ended with %v without a result and without a crash inside the teamserver (stderr tail: %s)", sc.Key(), err, clip(lastN(string(stderr), 400))))
 		return
 	}
 	c.Observe("teamserver-crashes", 1)
